@@ -232,6 +232,23 @@ def run(rep, tier):
                         rhs = unwrap(rhs["args"][0])
                     segs[unwrap(n["args"][0])["fname"]] = show(rhs)
             ok = segs.get("f_") == "sol.segment(0, ngrid)" and segs.get("f2_") == "sol.segment(ngrid, ngrid)"
+            if not ok and segs.get("f_") == "sol.head(ngrid)" and segs.get("f2_") == "sol.tail(ngrid)":
+                # head/tail split the solution in the middle iff it has 2*ngrid entries: the fit matrix handed to the solve has 2*ngrid columns
+                adecl = [d_ for d_ in ff.decls.values() if d_.get("name") == a[0] and d_.get("init") is not None]
+                if len(adecl) == 1:
+                    fof = Fold(ff, inline=False)
+                    fof.run()
+                    try:
+                        iv = fof.ev(adecl[0]["init"], fof.final_env)
+                    except Exception:
+                        iv = None
+                    hd = [x for x in ff.walk() if x.get("k") == "mcall" and (x.get("callee") or "").endswith("::head") and show(x.get("obj")) == "sol"]
+                    try:
+                        hv = fof.ev(hd[0]["args"][0], fof.final_env) if hd and hd[0].get("args") else None
+                    except Exception:
+                        hv = None
+                    cols = iv.args[-1] if iv is not None and getattr(iv, "args", None) else None
+                    ok = hv is not None and cols is not None and sp.simplify(cols - 2 * hv) == 0
             why = "solution split is %s, required f_ = sol[0:ngrid], f2_ = sol[ngrid:2 ngrid]" % segs
     rep.check(ok, "R12.4", "cubic|fit-layout", "Fit = constrained solve over [f; f2]", "CubicSpline::Fit: " + why, ff.loc(), sample=True)
 
